@@ -188,4 +188,20 @@ def h():
             obs.append(Ob(f"dep.{mt}", build([INT("v")], body, setup=SETUP + head),
                           f"{mt}: unit-dependent controllers accept every integer under every unit (warn-only ranges) and read it back; the range table per unit equals the YAML's",
                           group="dep", shape=f"{mt}: {len(deps)} unit-dependent controllers x every unit member", symbolic="v over all integers (unbounded)", timeout=240))
+    # "in the default strict mode": also after the library has loaded files, including ones with nested loads
+    import glob
+    for fx in ("amplifier.sunsynth", "metamodule.sunsynth", "sampler.sunsynth", "empty.sunvox"):
+        data = open("/repo/tests/files/" + fx, "rb").read()
+        body = """
+    load_bytes(DATA)
+    mod = MODULE_CLASSES["Amplifier"]()
+    try:
+        mod.volume = v
+    except ControllerValueError:
+        return not (0 <= v <= 1024) and mod.volume == 256
+    return 0 <= v <= 1024 and mod.volume == v
+"""
+        obs.append(Ob(f"strict.after_load.{fx.split('.')[0]}", build([INT("v")], body, setup=SETUP + f"DATA = {data!r}\n"),
+                      f"after loading {fx} the default strict mode still applies: out-of-range assignments are rejected, in-range ones read back", group="strict",
+                      shape=f"load {fx}, then Amplifier().volume = v", symbolic="v over all integers", timeout=240))
     return obs
